@@ -212,18 +212,26 @@ PROPS = {
     "C13": {
         "units": ["outline"],
         "level": "other",
-        "property_obligations": ["Formula::inductive_lemma", "lemma_induction", "lemma_induct", "lemma_ucl_valid"],
-        "carriers": ["Formula::universal_closure"],
+        "property_obligations": ["Formula::inductive_lemma", "lemma_induction", "lemma_induct", "lemma_ucl_valid",
+                                 "Formula::definition", "lemma_def_ok", "lemma_definition_conservative", "lemma_pred_coin_cl", "lemma_preds_cover", "lemma_extend_len"],
+        "carriers": ["Formula::universal_closure", "Variable::try_from", "WithWarnings::preface_warnings"],
         "explanation": "Inductive lemmas: Verus proves on the real CheckInternal::inductive_lemma (with the real unbox, universal_closure, free_variables, quantify and the C17 contract of substitute) that whenever it "
                        "returns Ok((base, step)), base and step together imply the lemma `forall V (N >= n -> F)` in every classical interpretation under every sort-respecting assignment — by an induction over the "
-                       "integers k >= n inside Verus (lemma_induct), including n negative, N also bound inside F, and N not among the quantified variables. NOT under contract: definition acceptance "
-                       "(CheckInternal::definition), GeneralLemma::try_from, ProofOutline::from_specification and the sequencing loop of AssembledExternalEquivalenceTask::decompose (enumerate/format!/iter::once/flat_map).",
+                       "integers k >= n inside Verus (lemma_induct), including n negative, N also bound inside F, and N not among the quantified variables. "
+                       "Definitions: Verus proves on the real CheckInternal::definition (D19: as an inherent method) that whenever it returns Ok(p), the formula has the form `forall X (p(X) <-> F)` with X pairwise "
+                       "distinct, every argument of the atom a variable, the arguments and X the same set, p (name/arity) not among the taken predicates, F without free variables outside X and without predicates "
+                       "outside the taken ones (def_ok); and lemma_definition_conservative proves that every such formula is a conservative extension: each interpretation of the earlier vocabulary has an "
+                       "expansion, differing only in the extent of p, in which the definition is true — which is what makes it safe as an axiom of every later problem. "
+                       "NOT under contract: GeneralLemma::try_from, ProofOutline::from_specification (the growth of the taken set along the outline) and the sequencing loop of "
+                       "AssembledExternalEquivalenceTask::decompose (enumerate/format!/iter::once/flat_map).",
         "assumptions": [
             "Formula::substitute is used through its contract subst_ht, which is PROVED in unit subst (C17) on the same working tree",
-            "IndexSet == is set equality (indexmap documentation); IndexSet::from_iter(vec) = insertion-ordered dedup",
-            "CheckInternal::definition, GeneralLemma::try_from, ProofOutline::from_specification, AssembledExternalEquivalenceTask::decompose: NOT verified (the 'used only after established' half of C13 is not decided)",
+            "IndexSet == is set equality (indexmap documentation); IndexSet::from_iter(vec) = insertion-ordered dedup; IndexSet::difference(..).next() yields an element of the first set that is not in the second, "
+            "None only if there is none (indexmap documentation)",
+            "D19: CheckInternal::definition and TryFrom<GeneralTerm> for Variable are verified as inherent methods (same bodies)",
+            "GeneralLemma::try_from, ProofOutline::from_specification, AssembledExternalEquivalenceTask::decompose: NOT verified (the 'used only after established' half of C13 is not decided)",
         ],
-        "not_covered": ["CheckInternal::definition", "lemma sequencing in AssembledExternalEquivalenceTask::decompose", "GeneralLemma::try_from"],
+        "not_covered": ["ProofOutline::from_specification", "lemma sequencing in AssembledExternalEquivalenceTask::decompose", "GeneralLemma::try_from"],
     },
     "C03": {
         "units": ["gamma", "strong"],
